@@ -197,3 +197,22 @@ RARE_C = [
     "int\tft_fa(void)\n{\n\tint\ta;\n\n\ta = ({ 1; });\n\treturn (a);\n}\n",
     "int\tg_a;;\n;\nint\tg_b;\n",
 ]
+
+
+def unbalanced_units():
+    """statements whose parenthesis / bracket / brace is never closed, inside and outside a
+    function body, FOLLOWED by further lines (a prefix family never has anything after the cut):
+    every scan that counts nesting has to stop at the end of the input"""
+    heads = ["if (a", "while (a", "else if (a", "else\twhile (a", "else while (a", "return (a", "a = (b", "f(a, (b",
+             "a[b", "a = b[c", "for (i = 0; i < n", "switch (a", "do\twhile (a", "x = sizeof(a", "if ((a) && (b",
+             "while (f(a", "default:\twhile (a", "case 1:\tif (a", "int\tb = (1", "char\tc[3", "g = (t_x){1"]
+    tails = ["\n}\n", "\n\treturn (0);\n}\n", ";\n}\n", "\n}\n\nint\tg(void)\n{\n\treturn (1);\n}\n"]
+    out = []
+    for h in heads:
+        for t in tails:
+            out.append("int\tf(int a, int b)\n{\n\t" + h + t)
+    for h in ("int\tg_a = (1", "int\tg_t[2", "int\tf(int a", "typedef struct s_a\n{\n\tint\ta", "enum e_a\n{\n\tA = (1",
+              "#define X (1", "#if (A", "#if defined(A"):
+        for t in ("\n", "\n\nint\tg(void)\n{\n\treturn (1);\n}\n"):
+            out.append(h + t)
+    return out
